@@ -80,34 +80,42 @@ Record ires := mkIres {
   ir_data : list T            (* area_grid.data, row-major *)
 }.
 
-(* fine (flow direction) grid: nr_a nc_a xll_a yll_a csz_a; coarse grid: nrows
-   ncols xll yll csz.  None = ValueError (np.min of an empty array: no cell
-   centre falls inside the coarse grid). *)
+(* the part of Catchment.intersect that follows the kernel call: lower-left
+   corner, parent rows/columns, weight grid (coarse grid: nrows ncols xll yll csz) *)
+Definition ires_of_acc (nrows ncols : Z) (xll yll csz : T) (acc : list (Z * T)) : ires :=
+  let idx := map fst acc in
+  let w := map snd acc in
+  let coords := map (cell2coord N nrows ncols xll yll csz) idx in
+  let half := ndiv N csz (nofZ N INTERSECT_HALF_DIV) in
+  let axll := nsub N (fmin_list (map fst coords)) half in
+  let ayll := nsub N (fmin_list (map snd coords)) half in
+  let rc := map (cell2rowcol nrows ncols) idx in
+  let row_start := zmin_list (map fst rc) in
+  let row_end := zmax_list (map fst rc) in
+  let col_start := zmin_list (map snd rc) in
+  let col_end := zmax_list (map snd rc) in
+  let anrows := row_end - row_start + 1 in
+  let ancols := col_end - col_start + 1 in
+  let pos := map (fun p => (fst p - row_start, snd p - col_start)) rc in
+  let data := scatter ancols pos w (repeat (n0 N) (Z.to_nat (anrows * ancols))) in
+  mkIres idx w row_start row_end col_start col_end axll ayll anrows ancols data.
+
+(* the points handed to the kernel: centres of the (filled) area cells on the
+   fine (flow direction) grid nr_a nc_a xll_a yll_a csz_a *)
+Definition area_xy (nr_a nc_a : Z) (xll_a yll_a csz_a : T)
+           (filled : bool) (cells cells_filled : list Z) : list (T * T) :=
+  map (cell2coord N nr_a nc_a xll_a yll_a csz_a) (if filled then cells_filled else cells).
+
+(* None = ValueError (np.min of an empty array: no cell centre falls inside
+   the coarse grid). *)
 Definition intersect_py (nr_a nc_a : Z) (xll_a yll_a csz_a : T)
            (filled : bool) (cells cells_filled : list Z)
            (nrows ncols : Z) (xll yll csz : T) : option ires :=
-  let cs := if filled then cells_filled else cells in
-  let xy_area := map (cell2coord N nr_a nc_a xll_a yll_a csz_a) cs in
-  let acc := c_intersect nrows ncols xll yll csz csz_a xy_area in
+  let acc := c_intersect nrows ncols xll yll csz csz_a
+               (area_xy nr_a nc_a xll_a yll_a csz_a filled cells cells_filled) in
   match acc with
   | [] => None
-  | _ :: _ =>
-      let idx := map fst acc in
-      let w := map snd acc in
-      let coords := map (cell2coord N nrows ncols xll yll csz) idx in
-      let half := ndiv N csz (nofZ N INTERSECT_HALF_DIV) in
-      let axll := nsub N (fmin_list (map fst coords)) half in
-      let ayll := nsub N (fmin_list (map snd coords)) half in
-      let rc := map (cell2rowcol nrows ncols) idx in
-      let row_start := zmin_list (map fst rc) in
-      let row_end := zmax_list (map fst rc) in
-      let col_start := zmin_list (map snd rc) in
-      let col_end := zmax_list (map snd rc) in
-      let anrows := row_end - row_start + 1 in
-      let ancols := col_end - col_start + 1 in
-      let pos := map (fun p => (fst p - row_start, snd p - col_start)) rc in
-      let data := scatter ancols pos w (repeat (n0 N) (Z.to_nat (anrows * ancols))) in
-      Some (mkIres idx w row_start row_end col_start col_end axll ayll anrows ancols data)
+  | _ :: _ => Some (ires_of_acc nrows ncols xll yll csz acc)
   end.
 
 (* ---------------- c_voronoi ---------------- *)
